@@ -44,6 +44,25 @@ Check =
     (`gen_stale_ref_case`) points sort keys, fixed lists and hide keys at such references: negative ints
     and numeric strings in -n..-1 and below -n, numbers >= n, non-numeric strings, on MR, CA and numeric
     arrays as sorted or opposing dimension.
+(d) ONE transforms dict object for a sequence of cubes (added after seeded change C08-7:
+    `_ElementIdShim.shimmed_dimension_transforms_dict` translated the fixed top / bottom ids of an array
+    dimension IN PLACE, so the caller's transforms dict carried the first cube's subvariable aliases; a second
+    cube given the same dict - another array variable, other aliases - could not resolve them, dropped the
+    fixed elements and sorted them by value with the rest.  Every case of (a)-(c) builds one cube on a deep
+    copy; the change was noticed only as a broken source-text obligation, without a failing input).  The
+    property speaks about each table on its own, so it must hold for cube k of a deck exactly as for cube k
+    alone.  Class added: 2..3 cubes built one after another over DIFFERENT array variables (the cube sequences
+    of C09's leg (c): MR strands, MR x CAT, CAT x MR, CA, MR x MR, numeric arrays, 3-D cubes) with one
+    transforms object - the whole dict, only its dimension dicts, or only the 'order' level being the same
+    object for every cube; built through `impl.Cube` without the deep copy `impl.partition` makes, read
+    interleaved / after all are built / in reverse, or as the cubes of a CubeSet given [t, t] - carrying a
+    sort-by-value order (opposing element / opposing insertion / label / marginal / univariate measure,
+    both directions) whose fixed top / bottom lists and opposing-element keys are spelled by element id (int /
+    string), subvariable id, alias or category id (repeats, references that name nothing), with hides, prune,
+    view and transforms insertions.  Required of every cube and slice (relational): the same row / column
+    orders in both formats, labels, codes, payload_order and shape as a fresh cube on the same response given
+    its OWN pristine deep copy of the transforms as written - for which legs (a) / (b) establish the property.
+    Distribution keys `shared-transforms:*`.
 """
 import copy
 import json
@@ -60,6 +79,9 @@ from harness.props import order_util as ou
 # transforms without them: shared with C07's leg (c), see there
 from harness.props.c07 import (array_facts_by_key, drop_unmatched_refs, known_refs_pool, matches_nothing,
                                stale_ref_class, stale_refs_pool)
+# sequences of cubes over different array variables given ONE transforms object (leg (d)): the sharing
+# levels, the runner and the comparison are C07's, the cube sequences those of C09's leg (c)
+from harness.props import c07 as seq
 
 PID = "C08"
 IMPORTS = ou.IMPORTS + "\nFrom CC Require Import Model.SortKeys."
@@ -1246,6 +1268,148 @@ def run_cases(rep, cases, tables):
 
 
 # ------------------------------------------------------------------------------------
+# (d) ONE transforms dict object for a sequence of cubes over DIFFERENT array variables
+# ------------------------------------------------------------------------------------
+#
+# "Fixed-top and fixed-bottom elements bracket them in their listed order" and "sorted by opposing
+# element" refer to the ids the CALLER wrote; a dashboard applies one transforms dict to the same question
+# of two waves (other subvariables, hence other aliases; same element ids).  The sort-by-value order of cube
+# k of such a sequence must be that of cube k alone.  Sequences, sharing levels (whole dict / dimension
+# dicts / 'order' level), read orders (interleaved, all built first, reversed, CubeSet) and the comparison
+# with the fresh-copy run are those of C07's leg (d); the transforms are this property's.
+
+SEQ_COUNT_KEYWORDS = {
+    "matrix": ("col_percent", "row_percent", "table_percent", "count_weighted", "count_unweighted",
+               "col_base_unweighted", "row_base_weighted", "table_std_err", "col_index", "z_score",
+               "col_percent_moe", "row_std_dev", "col_share_sum"),
+    "strand": ("count_weighted", "count_unweighted", "percent", "percent_moe", "percent_stddev",
+               "base_unweighted", "base_weighted", "share_sum"),
+    "marginal": ("unweighted_base", "weighted_base", "table_proportion"),
+}
+
+
+def seq_keyword(rng, tables, which, numeric):
+    have = tables.keywords(which)
+    if numeric and "mean" in have and rng.random() < 0.8:
+        return "mean"
+    if rng.random() < 0.05:
+        return rng.choice(have + ["foo"])
+    return rng.choice([k for k in SEQ_COUNT_KEYWORDS[which] if k in have] or have)
+
+
+def seq_sort_transforms(rng, cubes, idx, tables, stats):
+    """a sort-by-value order for the rows (idx 0) / columns (idx 1) of the whole sequence, written with the
+    first cube in mind: type, keyword, opposing key and fixed lists by element id / subvariable id of ITS
+    array items (else any spelling of any cube)"""
+    pool, by_id = seq.seq_ref_pools(cubes, idx)
+    opp_pool, opp_by_id = seq.seq_ref_pools(cubes, 1 - idx)
+    first = cubes[0]
+    numeric = first["layout"].startswith("numarr")
+    if first["strand"] or not opp_pool:
+        typ = rng.choice(["univariate_measure"] * 3 + ["label"])
+    elif idx == 0:
+        typ = rng.choice(["opposing_element"] * 4 + ["label", "label", "marginal", "marginal", "opposing_insertion"])
+    else:
+        typ = rng.choice(["opposing_element"] * 4 + ["label", "label", "opposing_insertion"])
+    o = {"type": typ}
+    if typ == "univariate_measure":
+        o["measure"] = seq_keyword(rng, tables, "strand", numeric)
+    elif typ in ("opposing_element", "opposing_insertion"):
+        o["measure"] = seq_keyword(rng, tables, "matrix", numeric)
+    elif typ == "marginal":
+        o["marginal"] = seq_keyword(rng, tables, "marginal", False)
+    if typ == "opposing_element":
+        o["element_id"] = seq.seq_refs(rng, opp_pool, opp_by_id, 1, stats, "sort-key", p_id=0.6)[0]
+    if typ == "opposing_insertion":
+        o["insertion_id"] = rng.choice([1, 1, 2, 3, 99])
+    d = rng.random()
+    if d < 0.9:
+        o["direction"] = "ascending" if d < 0.45 else "descending"
+    if rng.random() < 0.88 and pool:
+        n_top, n_bottom = rng.choice([(1, 0), (0, 1), (1, 1), (2, 0), (2, 1), (1, 2)])
+        fixed = {}
+        if n_top or rng.random() < 0.2:
+            fixed["top"] = seq.seq_refs(rng, pool, by_id, n_top, stats, "fixed-top")
+        if n_bottom or rng.random() < 0.2:
+            fixed["bottom"] = seq.seq_refs(rng, pool, by_id, n_bottom, stats, "fixed-bottom")
+        if rng.random() < 0.12:
+            both = (fixed.get("top") or []) + (fixed.get("bottom") or [])
+            fixed.setdefault("bottom", []).append(rng.choice(both))      # named twice: first mention counts
+            stats.append("fixed:repeat")
+        o["fixed"] = fixed
+    stats.append("sort:" + typ)
+    t = {"order": o}
+    seq.seq_decorate(rng, t, pool, by_id, idx, stats, p_ins=0.3)
+    return t
+
+
+def gen_seq_case(rng, k, tables):
+    mode = rng.choice(["numeric", "token", "token"])
+    cubes, stats = seq.seq_cubes(rng, rng.choice([2, 2, 2, 3]), mode)
+    which = rng.random()
+    dims = [0] if which < 0.5 else [1] if which < 0.8 else [0, 1]
+    transforms = {}
+    for idx in dims:
+        transforms[seq.SEQ_AXIS_KEYS[idx]] = seq_sort_transforms(rng, cubes, idx, tables, stats)
+    for idx in (0, 1):
+        if idx not in dims and rng.random() < 0.4:       # the other axis: hides / prune / insertions only
+            pool, by_id = seq.seq_ref_pools(cubes, idx)
+            t = {}
+            seq.seq_decorate(rng, t, pool, by_id, idx, stats, p_ins=0.6)
+            if t:
+                transforms[seq.SEQ_AXIS_KEYS[idx]] = t
+    case = {"leg": seq.SEQ_LEG, "k": k, "cubes": cubes, "transforms": transforms, "svid_mode": mode,
+            "stats": stats, "population": rng.choice([None, None, 1000])}
+    case.update(seq.seq_sharing(rng, dims))
+    return case
+
+
+def seq_fixed_lists(td):
+    od = td.get("order")
+    fx = od.get("fixed") if isinstance(od, dict) else None
+    return [fx.get("top"), fx.get("bottom")] if isinstance(fx, dict) else []
+
+
+def _seq_replayable(case):
+    return dict(seq._seq_replayable(case), population=case.get("population"))
+
+
+def seq_sorted_somewhere(case, ref):
+    """number of (cube, slice, axis) of the fresh-copy run whose sorted axis is NOT in payload order: the
+    sort (or its fixed lists) moves something there"""
+    n = 0
+    for ci, spec in enumerate(case["cubes"]):
+        for og in ref[ci]:
+            for idx, axis in enumerate(["row"] if spec["strand"] else ["row", "column"]):
+                o = og.get(axis + "_order")
+                if (seq.SEQ_AXIS_KEYS[idx] in case["transforms"] and "order" in case["transforms"][seq.SEQ_AXIS_KEYS[idx]]
+                        and o and o[0] == "ok" and [z for z in o[1] if z >= 0] != sorted(z for z in o[1] if z >= 0)):
+                    n += 1
+    return n
+
+
+def run_seq_cases(rep, cases):
+    for case in cases:
+        case = core.jsonable(case)              # what a replay file gives back
+        got = seq.seq_run(case, shared=True, population=case.get("population"))
+        ref = seq.seq_run(case, shared=False, population=case.get("population"))
+        found = seq.seq_rel_diffs(case, got, ref)
+        two = seq.seq_refs_in_two_cubes(case, seq_fixed_lists)
+        moved = seq_sorted_somewhere(case, ref)
+        rc = _seq_replayable(case)
+        rep.count_case(rc, two or moved > 0)
+        seq.seq_dist(rep, case, two, "fixed-id-reference-names-an-item-in-2+-cubes-with-other-aliases")
+        rep.dist(seq.SEQ_LEG + ":sorted-axes-not-in-payload-order(fresh-copy run)", moved)
+        if two:
+            rep.sample({"leg": seq.SEQ_LEG, "transforms": case["transforms"], "share": case["share"],
+                        "cubes": [c["layout"] for c in case["cubes"]], "read": case["read"]}, limit=4)
+        for what, detail in found:
+            rep.violation("shared-transforms-sort-order", rc, dict(detail, what=what),
+                          {"what": what.split(".")[-1], "leg": seq.SEQ_LEG, "group": "shared-transforms",
+                           "kinds": "+".join(c["layout"] for c in case["cubes"])})
+
+
+# ------------------------------------------------------------------------------------
 # small scope: SortByValueCollator itself on synthetic value vectors (incl. +-inf, ties, NaN)
 # ------------------------------------------------------------------------------------
 
@@ -1364,6 +1528,9 @@ def run(tier, seed):
     coq_s, n_terms = run_cases(rep, cases, tables)
     s2, n2 = run_scope(rep, rng, 600 if tier == "quick" else 7500)
     coq_s, n_terms = coq_s + s2, n_terms + n2
+    n_seq = 200 if tier == "quick" else 3000
+    rng_seq = random.Random("C08/%s/%s" % (seq.SEQ_LEG, seed))     # own stream: the cases above stay as they were
+    run_seq_cases(rep, [gen_seq_case(rng_seq, k, tables) for k in range(n_seq)])
     # every sortable keyword must have been exercised with a resolvable key
     missing = [c for c in cycle if not rep.cov["distribution"].get("keyword:" + c)]
     rep.cov["keywords_not_exercised"] = missing
@@ -1394,7 +1561,20 @@ def run(tier, seed):
         "value patterns {NaN,-inf,0,1,+inf}^4 x direction x 6 fixed configurations, two of them with repeated "
         "ids (subtotal values, hidden "
         "and pruned-empty sets cycled; 600 sampled in quick, all 7500 in thorough). non-trivial = "
-        "a sorted dimension present; distinct by content hash")
+        "a sorted dimension present; distinct by content hash; + leg (d) (shared-transforms:* keys, own random "
+        "stream): N_SEQ sequences of 2 (75%) or 3 cubes over different array variables of 2..5 items (layouts and "
+        "surveys of C09's leg (c); third cube = the first again 30%; view insertions on 40% of the categorical "
+        "dimensions), ONE transforms object for the sequence (whole dict 60%, dimension dicts 20%, 'order' level "
+        "20%): a sort-by-value order on rows 50% / columns 30% / both 20%, type written for the first cube "
+        "(opposing_element 4 : label 2 : marginal 2 : opposing_insertion 1; strands univariate_measure 3 : label 1), "
+        "count-based keywords ('mean' on numeric arrays, 5% any / unknown), opposing key 60% element id / "
+        "subvariable id of the first cube's opposing array else any spelling of any cube, direction ascending 45% / "
+        "descending 45% / absent, fixed lists on 88% (1..3 references over top / bottom, 75% element id / "
+        "subvariable id of the first cube's array, int or string, 6% name nothing, 12% a repeat), hide 25%, prune "
+        "25%, transforms insertions 30%; read interleaved 55%, all built first 18%, reversed 9%, as the cubes of "
+        "a CubeSet 18%; every sequence is run a second time with a pristine deep copy per cube (reference); "
+        "non-trivial there = a fixed-list id reference names an item in two cubes with other aliases, or a sorted "
+        "axis of the reference run is not in payload order").replace("N_SEQ", str(n_seq))
     rep.cov["coq_eval_seconds"] = round(coq_s, 2)
     rep.cov["model_terms_evaluated"] = n_terms
     rep.assumptions = [
@@ -1459,6 +1639,8 @@ def replay(path):
     table_violations, rep.violations = rep.violations, []
     if case.get("scope"):
         replay_scope(rep, case)
+    elif case.get("leg") == seq.SEQ_LEG:
+        run_seq_cases(rep, [case])
     elif "response" in case:
         case.setdefault("malformed", False)
         run_cases(rep, [case], tables)
